@@ -48,6 +48,7 @@ def run(ctx):
     store_rules(ctx, facts)
     guard_new_query(ctx, facts)
     flow_status(ctx, facts)
+    shard_status(ctx, facts)
 
 
 def names(facts, adt):
@@ -308,6 +309,58 @@ def guard_new_query(ctx, facts):
     if len(sets) >= 2:
         s1 = max(bb for bb, _ in sets)
         ctx.ob("GUARD-new-query", "restore-after-final-state", all(flow.dominates(dom, s1, rb) for rb, _ in restores), "guard is disarmed only after the final state was set")
+
+
+def shard_status(ctx, facts):
+    """What a non-leader shard tells the leader: its OWN status.  The leader's meet (min_status) is only as good as the
+    values the shards report, so the error that carries a differing status must put the shard's own get_status()
+    result in the field the leader reads (`my_status`), and readers must read that field."""
+    ctx.rule("FLOW-shard-status: shard_status returns Ok(own status) when it equals the requested one and otherwise DifferentStatus { my_status: own get_status() result, other_status: the request's status }; every reader of a DifferentStatus error outside Debug/Display takes `my_status`")
+    b = facts.bodies.get("query::processor::Processor::shard_status")
+    if b is None:
+        return ctx.missing("FLOW-shard-status", "Processor::shard_status")
+    ctx.count(bodies=1)
+    adt = facts.adts.get("query::processor::QueryStatusError")
+    fields = []
+    if adt:
+        for v in adt["variants"]:
+            if v["name"] == "DifferentStatus":
+                fields = [f["name"] for f in v["fields"]]
+    agg = [(bb, idx, st) for bb, idx, st in b.iter_assigns() if st["r"]["k"] == "agg" and st["r"].get("vn") == "DifferentStatus"]
+    if not agg or not fields:
+        return ctx.missing("FLOW-shard-status", "DifferentStatus aggregate / variant fields")
+    bb, idx, st = agg[0]
+    vals = {n: str(flow.expr_of(b, o, max_depth=25)) for n, o in zip(fields, st["r"]["ops"])}
+    ok_my = "Processor::get_status" in vals.get("my_status", "") and "get_status" not in vals.get("other_status", "")
+    ok_other = "('arg', 3" in vals.get("other_status", "") and "status" in vals.get("other_status", "")
+    ctx.ob("FLOW-shard-status", "error-carries-own-status", ok_my and ok_other, "my_status = this shard's status, other_status = the leader's" if ok_my and ok_other else "the DifferentStatus error does not carry this shard's own status in `my_status` (fields swapped): the leader's min_status then folds in its own status again and reports a state some shard has not reached", site_of(b, bb, idx))
+    okv = False
+    for bb2, idx2, st2 in b.iter_assigns():
+        r = st2["r"]
+        if st2["p"] == [0] and r["k"] == "agg" and r.get("adt") == "std::result::Result" and r["vn"] == "Ok":
+            okv = "Processor::get_status" in str(flow.expr_of(b, r["ops"][0], max_depth=25))
+    ctx.ob("FLOW-shard-status", "ok-is-own-status", okv, "Ok(own status)" if okv else "shard_status does not return its own status on agreement", site_of(b))
+    dom = b.dominators()
+    ne = [(tgt, f) for tgt, f in flow.edge_guards(b) if f[0] in ("true", "Ne") and ("PartialEq::ne" in str(f[1]) or f[0] == "Ne") and "get_status" in str(f)]
+    okg = bool(ne) and flow.dominates(dom, ne[0][0], bb)
+    ctx.ob("FLOW-shard-status", "error-iff-different", okg, "the error is raised exactly when the statuses differ" if okg else "DifferentStatus is not guarded by `request.status != own status`", site_of(b, bb, idx))
+    # readers of the error
+    n = 0
+    for rb in facts.non_test_bodies():
+        if re.search(r"(Debug|Display)>::fmt|Error>::source", rb.path) or not rb.file.startswith("ipa-core/"):
+            continue
+        hit = set()
+        for sb in rb.live_blocks():
+            for stt in rb.stmts(sb):
+                blob = str(stt)
+                if "'DifferentStatus'" in blob:
+                    for m in re.finditer(r"\['d', \d+, 'DifferentStatus'\], \['f', \d+, '(\w+)'\]", blob):
+                        hit.add(m.group(1))
+        if hit and rb.path != b.path:
+            n += 1
+            ok = "other_status" not in hit
+            ctx.ob("FLOW-shard-status", f"reader:{rb.path}", ok, f"reads {sorted(hit)}" if ok else "a consumer of the DifferentStatus error reads `other_status` (the asker's own status echoed back) as the shard's status", site_of(rb))
+    ctx.count(bodies=n)
 
 
 def flow_status(ctx, facts):
